@@ -3,6 +3,7 @@ import multiprocessing as mp
 import random
 from fractions import Fraction
 
+import common
 from common import Driver, NCPU
 import docs as DOCS
 from docs import to_sx, sdocs_to_sx, sx_str
@@ -42,8 +43,9 @@ def make_configs(widths, fracs):
 def impl_piece(pydoc, w, fr, smart):
     try:
         fn = layout_smart if smart else layout_fast
-        sd = list(fn(pydoc, width=w, ribbon_frac=float(fr)))
-        text = default_render_to_str(list(sd))
+        with common.time_limit():
+            sd = list(fn(pydoc, width=w, ribbon_frac=float(fr)))
+            text = default_render_to_str(list(sd))
         return '(%s %s)' % (sdocs_to_sx(sd), sx_str('text', text)), sd, text
     except Exception as e:  # compared as an error enum; the model never raises
         return '(error %s)' % type(e).__name__, None, None
